@@ -116,6 +116,9 @@ func (p *prog) eval(t *term, dt *dtInfo) (interface{}, error) {
 	case "zero":
 		return dt.zero(), nil
 	case "lit":
+		if dt == nil {
+			dt = dtByName("i")
+		}
 		return dt.litVal(t.lit)
 	case "src":
 		if t.buf >= len(p.inputs) || t.off >= len(p.inputs[t.buf]) {
